@@ -985,6 +985,19 @@ pub fn run_c03(ctx: &Ctx) -> Report {
             }
         }
     }
+    // (f2) a prime of the factor base divides n (single root in the sieve tables): primes on both
+    // sides of the size classes of the sieve (2^13, 2^14, 2^15, 2^16, 2^17) x a prime cofactor
+    // that brings n to 100..160 bits x the three sieve selectors
+    for bits in ctx.pick(vec![100u32, 120, 143, 151, 160], vec![100, 120, 143, 151, 160, 180, 200]) {
+        for p in [257u64, 1009, 8191, 8209, 16381, 16411, 17299, 32749, 32771, 43487, 65521, 65537, 131071, 131101] {
+            let pb = 64 - p.leading_zeros();
+            let q = rm::next_prime_w(&(W::ONE << (bits - pb - 1)));
+            let qu: Uint = rm::w_to(&q);
+            for &a in &[Algo::Qs, Algo::Mpqs, Algo::Siqs] {
+                d.push(u(p) * qu, a, "fbase-divisor", Some(vec![u(p), qu]));
+            }
+        }
+    }
     // (g) refusal clause: above the supported size
     for k in [501u32, 512, 513, 600, 1000] {
         let p = rm::next_prime_w(&(W::ONE << (k - 1)));
@@ -1089,7 +1102,7 @@ pub fn run_c03(ctx: &Ctx) -> Report {
         rep.sample(d.cases[d.cases.len() - 1].json());
     }
     rep.nontrivial = nontrivial.len() as u64;
-    rep.rule = "cases = every n in [0,2^15]/[0,2^18] x 10 selectors; all p*q (211<=p<=q<600/2^11), p*q*r, p^k<=2^64, p^2*q x 10 selectors; edge set {2^k +- d : k in {8,16,24,31,32,40,48,52,56,63,64}, d<=64} x 10 selectors; semiprimes p*q just below 2^64, 2^128 and just above 2^63, 2^127 (5 values of p); pool-prime multisets (<=2/3) x prefixes {1,96}; primes, prime squares and smooth*prime at 64,128,256,400,448,500 bits x 10 selectors; hard composites under a 3-poll abort budget; oversize (501,512,513,600,1000-bit) primes and composites. Each case runs in a subprocess shard in this build profile; oracle = the call returns (Ok or Err). A panic (with source site), abort/signal or per-case timeout is a violation keyed by (selector, profile, site, size class). Non-trivial = distinct cases that reached an algorithm beyond trial division (>=2 factors above 8 bits, Err, or n above 64 bits).".into();
+    rep.rule = "cases = every n in [0,2^15]/[0,2^18] x 10 selectors; all p*q (211<=p<=q<600/2^11), p*q*r, p^k<=2^64, p^2*q x 10 selectors; edge set {2^k +- d : k in {8,16,24,31,32,40,48,52,56,63,64}, d<=64} x 10 selectors; semiprimes p*q just below 2^64, 2^128 and just above 2^63, 2^127 (5 values of p); pool-prime multisets (<=2/3) x prefixes {1,96}; primes, prime squares and smooth*prime at 64,128,256,400,448,500 bits x 10 selectors; hard composites under a 3-poll abort budget; oversize (501,512,513,600,1000-bit) primes and composites. Each case runs in a subprocess shard in this build profile; oracle = the call returns (Ok or Err). A panic (with source site), abort/signal or per-case timeout is a violation keyed by (selector, profile, site, size class). Non-trivial = distinct cases that reached an algorithm beyond trial division (>=2 factors above 8 bits, Err, or n above 64 bits). Family fbase-divisor: p*q for 14 primes p on both sides of the sieve size classes (2^8..2^17) and a prime q bringing n to 100..160 (thorough: 200) bits x {Qs,Mpqs,Siqs}: a prime of the factor base divides n.".into();
     rep.set(
         "outcomes",
         J::O(by_outcome.iter().map(|(k, v)| (k.clone(), J::from(*v))).collect()),
@@ -1136,6 +1149,21 @@ pub fn run_c04_supp(ctx: &Ctx) -> Report {
             }
         }
     }
+    // small inputs (30..61 bits): with a pool the parallel loops hand out items from the far end
+    // of work ranges that a sequential run never reaches (MPQS polynomial blocks whose D lies far
+    // above sqrt(n), more pool threads than SIQS has A values)
+    for (a, b) in [(20947u64, 31267u64), (47087, 52433), (84421, 238709), (774919, 6393791), (1000003, 1000033), (843717811, 1459084399)] {
+        let n = u(a) * u(b);
+        for t in 1..=16usize {
+            for alg in [Algo::Auto, Algo::Siqs, Algo::Mpqs, Algo::Qs] {
+                let prefs = PrefSpec {
+                    threads: Some(t),
+                    ..Default::default()
+                };
+                d.push_prefs(n, alg, "threads-small", Some(vec![u(a), u(b)]), prefs);
+            }
+        }
+    }
     // large inputs: the parallel loops start far into their work ranges
     for k in ctx.pick(vec![130u32, 260], vec![130, 200, 260, 300]) {
         let p = rm::next_prime_w(&(W::ONE << (k / 2)));
@@ -1154,7 +1182,8 @@ pub fn run_c04_supp(ctx: &Ctx) -> Report {
     }
     let cfg = SweepCfg {
         shards: 4,
-        case_timeout: Duration::from_secs(ctx.pick(120, 600)),
+        // the slowest clean case of the quick tier takes about 5 s; a deadlocked case costs the cap
+        case_timeout: Duration::from_secs(ctx.pick(45, 600)),
     };
     let results = run_sweep(ctx, &d.cases, &cfg);
     timing(&d.cases, &results);
@@ -1213,7 +1242,7 @@ pub fn run_c04_supp(ctx: &Ctx) -> Report {
     rep.sample(d.cases[0].json());
     rep.sample(d.cases[d.cases.len() - 1].json());
     rep.set("supplementary_free_running_cases", J::from(d.cases.len()));
-    rep.rule = "supplement (free-running, real rayon): 4 inputs x thread counts 1..16 x {Auto,Siqs,Mpqs,Qs,Ecm} x {default, large_factor=30+use_double}; 130-/260-bit (thorough: also 200, 300) semiprimes x {Mpqs,Siqs} x threads {2,3,16} under a poll-budget abort".into();
+    rep.rule = "supplement (free-running, real rayon): 4 inputs x thread counts 1..16 x {Auto,Siqs,Mpqs,Qs,Ecm} x {default, large_factor=30+use_double}; 6 semiprimes of 30..61 bits x thread counts 1..16 x {Auto,Siqs,Mpqs,Qs}; 130-/260-bit (thorough: also 200, 300) semiprimes x {Mpqs,Siqs} x threads {2,3,16} under a poll-budget abort".into();
     rep.exhaustive = true;
     rep
 }
